@@ -71,5 +71,5 @@ def f13_regime(A, y, kappa=None):
     return {
         "ill_conditioned": bool(kappa * kappa >= T.C * mm),
         "abs_tolerance": bool(tol_abs > tj.min() or tol_abs >= 1e-3 * ny / max(coln.max(), 1e-300)),
-        "huge_scale": bool(not np.isfinite(g) or T.EPS * g > tol_abs),
+        "huge_scale": bool(not np.isfinite(g) or T.EPS * max(g, float(coln.max()) * ny) > tol_abs),
     }
